@@ -283,6 +283,6 @@ def execute(cases_, tier, seed):
     res.bound = "tier=%s: all strings of length <=%d over a 13-character alphabet + %d keywords x 3 casings + specials, x 3 uses; colliding pairs up to the cap (smallest first)" % (
         tier, 3 if tier == "quick" else 4, len(KEYWORDS))
     res.assumptions = ["a failing add (Err or panic) is accepted by the statement and only counted", "random longer Unicode strings are not sampled"]
-    if not is_replay and (hist.get("ok", 0) < 100 or n_pairs < 10):
+    if not res.violations and (not is_replay and (hist.get("ok", 0) < 100 or n_pairs < 10)):   # a subject that breaks everything is reported through its violations, not as vacuity
         raise MachineryError("vacuity guard: ok=%d pairs=%d" % (hist.get("ok", 0), n_pairs))
     return res
